@@ -11,6 +11,7 @@ Inductive perr :=
 | EParameterizedTuple                    (* RustTypeParseError::UnexpectedParameterizedTuple *)
 | ENumericLiteral                        (* RustTypeParseError::NumericLiteral *)
 | EUnsupportedLanguage (s : str)
+| EUnsupportedTypeP (s : str)            (* ParseError::UnsupportedType *)
 | EComplexTupleStruct
 | EMultipleUnnamed
 | ESerdeTagNotAllowed (e : str)
